@@ -52,6 +52,23 @@ Section T.
     rewrite forallb_forall in H. auto.
   Qed.
 
+  Lemma nodup_idsb_sound l : nodup_idsb l = true -> NoDup l.
+  Proof.
+    induction l as [|x l IH]; intros H; [constructor|]. cbn in H. apply andb_true_iff in H as [H1 H2].
+    constructor; [|now apply IH]. intros Hin. apply Bool.negb_true_iff in H1.
+    assert (E : existsb (Z.eqb x) l = true) by (apply existsb_exists; exists x; split; [assumption|apply Z.eqb_refl]).
+    congruence.
+  Qed.
+
+  Lemma prefix_table_wf_sound tbl : prefix_table_wfb tbl = true ->
+    (forall p, In p tbl -> p_min p = p_off p + tag_len /\ p_max p = p_off p + tag_len /\ p_off p = length (p_static p)) /\
+    NoDup (map p_id tbl).
+  Proof.
+    intros H. split.
+    - intros p Hp. apply pfx_wfb_spec. eapply wf_in; eauto.
+    - unfold prefix_table_wfb in H. apply andb_true_iff in H as [_ H]. now apply nodup_idsb_sound.
+  Qed.
+
   Lemma static_own st rest k :
     let b := firstn k (st ++ rest) in
     let m := Nat.min (length st) (length b) in
